@@ -390,7 +390,7 @@ def main(argv=None):
     # 1. determinism self-test
     st_info = {"ran": False}
     if not args.no_selftest:
-        n = 6 if tier == "quick" else 40
+        n = getattr(mod, "SELFTEST_N", {}).get(tier, 6 if tier == "quick" else 40)
         err, digs = selftest(mod, tier, verif_seed, n)
         if err:
             print("HARNESS-ERROR determinism self-test failed: %s" % err)
